@@ -313,13 +313,6 @@ func (s *S) settle(upto int) error {
 		if quiet {
 			confirm++
 			if confirm >= s.opt.Confirm {
-				stillWaiting := false
-				for _, a := range s.actors[:upto] {
-					if !a.finished && !a.pending {
-						stillWaiting = true
-					}
-				}
-				_ = stillWaiting
 				return nil
 			}
 		} else {
